@@ -14,14 +14,15 @@ RULE = ("full in-memory stack; byte strings of EVERY length 0..3100 (covering th
         "connection with more than 64 KiB in flight waits until the peer has read down to 16 KiB) with seeded random contents covering all 256 byte values, formats incl. empty and non-ASCII; "
         "wire fragmentation {1024, 1 byte, random}; configurations: driver->real Client (control=Never + dedicated BLOB "
         "connection=Only), driver->single-connection client with policy {unset, Never, Also, Only} on a threshold-free or "
-        "threshold-enabled link, real Client->driver upload; each followed by further traffic and by a delivery that is held "
+        "threshold-enabled link, real Client->driver upload; every second session with an in-process snooping client "
+        "of another driver that enabled BLOBs (Also) and is registered before the remote connections; each followed by further traffic and by a delivery that is held "
         "half-way. Monitors: logical step budget on every Buffer.process call inside the event loop, bounded quiescence, task "
-        "liveness, wire taps (no payload bytes to a client that did not enable BLOBs), element value/format/length/state on both "
+        "liveness, immutability of every routed message object across its fan-out, wire taps (no payload bytes to a client that did not enable BLOBs), element value/format/length/state on both "
         "sides. non-trivial = a payload that was published or uploaded; distinct = hash(length, configuration, fragmentation, format)")
 ASSUMPTIONS = ["payloads are published after the client's handshake (incl. its enableBLOB) has been processed",
                "known finding: a payload message longer than the junk threshold on a link whose threshold is enabled is dropped"]
 REQUIRED_EVENTS = ["sessions", "payloads_published", "payloads_uploaded", "payloads_verified", "no_payload_checks", "republished_same_object",
-                   "buffer_process_calls_guarded", "half_way_holds", "following_traffic_checks", "drains_that_waited_for_a_slow_peer"]
+                   "buffer_process_calls_guarded", "half_way_holds", "following_traffic_checks", "drains_that_waited_for_a_slow_peer", "snooping_client_blob_checks", "routed_messages_checked_for_mutation"]
 
 FORMATS = [".fits", "", ".bin", ".é", ".fits.z", ".ÿ<&>"]
 FRAGS = ["1024", "1", "random"]
@@ -103,6 +104,15 @@ async def session(ctx, case):
         router = Router()
         spec = make_spec()
         drv = D.build(spec)(router=router)
+        snoop = None
+        if case["n"] % 2:
+            # another driver of the same process snoops the camera's images (a guider, a plate solver): its in-process client is
+            # registered BEFORE the remote connections and is handed the very message objects they are serialised from later
+            import indi.message as M
+            guide = D.build(dict(make_spec(), name="GUIDE"))(router=router)
+            snoop = guide.snoop_device("CAM")
+            snoop.send_message(M.EnableBLOB(device="CAM", value="Also"))
+            ctx.count("sessions_with_a_snooping_client_that_enabled_blobs")
         sess = stack.Session(router, seed=n, mode_c2s=case["frag"], mode_s2c=case["frag"])
         if direction == "d2c-single":
             client = SingleClient(sess, policy, for_blobs)
@@ -281,6 +291,15 @@ async def session(ctx, case):
                 if direction == "d2c-client" and l is links[1] and "<setTextVector" in sent[sent.find("<setBLOBVector"):]:
                     ctx.violate("non-blob-traffic-on-only-connection", "the Only connection received a text update after its handshake", case)
                     return False
+        if snoop is not None:
+            sv = stack.client_view(snoop).get("CAM", {}).get("IMG", {}).get("elements", {})
+            for k, e in (("IMG_E0", el), ("IMG_E1", D.element_of(drv, "g", "b", "e1"))):
+                have, dev = fullstack.norm_blob(sv.get(k, (None, None))[1]), fullstack.norm_blob(e._value)
+                ctx.count("snooping_client_blob_checks")
+                if have != dev:
+                    ctx.violate("snooping-client-blob-differs", f"{k}: the in-process snooping client (enableBLOB Also) holds {describe(have)}, the device {describe(dev)}", case)
+                    return False
+        tap.report_invalid(ctx, case)
         ctx.counters["buffer_process_calls_guarded"] = ctx.counters.get("buffer_process_calls_guarded", 0) + stats["calls"]
         ctx.count("drains_that_waited_for_a_slow_peer", sum(w.writer.drains_paused for l in sess.links for w in l.wires()))
         ctx.notes["max_line_events_in_one_process_call"] = max(ctx.notes.get("max_line_events_in_one_process_call", 0), stats["max_steps"])
